@@ -360,16 +360,35 @@ def xright(from_str, num_chars=1):
 
 
 FUNCTIONS['RIGHT'] = wrap_ufunc(xright, **_kw0)
-FUNCTIONS['TRIM'] = wrap_ufunc(str.strip, **_kw1)
+FUNCTIONS['TRIM'] = wrap_ufunc(
+    lambda text: ' '.join(filter(None, text.split(' '))), **_kw1
+)
 FUNCTIONS['UPPER'] = wrap_ufunc(str.upper, **_kw1)
 
 
+def _wildcards2regex(text):
+    res, i = [], 0
+    while i < len(text):
+        c = text[i]
+        if c == '~' and text[i + 1:i + 2] in ('~', '?', '*'):
+            i += 1
+            res.append(regex.escape(text[i]))
+        else:
+            res.append({'?': '.', '*': '.*?'}.get(c) or regex.escape(c))
+        i += 1
+    return ''.join(res)
+
+
 def xsearch(find_text, within_text, start_num=1):
-    n = int(start_num - 1)
-    n = str(within_text).lower().find(str(find_text).lower(), n)
-    if n < 0:
+    n, within_text = int(start_num or 0) - 1, _str(within_text)
+    if not 0 <= n <= len(within_text):
         return Error.errors['#VALUE!']
-    return n + 1
+    match = regex.compile(
+        _wildcards2regex(_str(find_text)), regex.IGNORECASE | regex.DOTALL
+    ).search(within_text, n)
+    if not match:
+        return Error.errors['#VALUE!']
+    return match.start() + 1
 
 
 FUNCTIONS['SEARCH'] = wrap_ufunc(xsearch, **_kw0)
@@ -378,12 +397,14 @@ FUNCTIONS['SEARCH'] = wrap_ufunc(xsearch, **_kw0)
 def xsubstitute(text, old_text, new_text, instance_num=None):
     text, old_text, new_text = tuple(map(_str, (text, old_text, new_text)))
     if instance_num is None:
-        return text.replace(old_text, new_text)
+        return text.replace(old_text, new_text) if old_text else text
     elif isinstance(instance_num, (
             bool, np.bool_, str, np.str_
     )) or instance_num < 1:
         return Error.errors['#VALUE!']
 
+    if not old_text:
+        return text
     parts = text.split(old_text)
     instance_num = int(instance_num)
     if instance_num > len(parts) - 1:
@@ -414,12 +435,14 @@ FUNCTIONS['_XLFN.CONCATENATE'] = FUNCTIONS['CONCATENATE'] = wrap_ufunc(
 
 def xtextjoin(delimiter, ignore_empty, text, *args):
     raise_errors(delimiter, ignore_empty, text, *args)
-
+    ignore_empty = replace_empty(next(flatten(ignore_empty, None)), False)
+    if isinstance(ignore_empty, str):
+        ignore_empty = {'TRUE': True, 'FALSE': False}[ignore_empty.upper()]
+    it = (replace_empty(v, '') for v in flatten((text,) + args, None))
     if ignore_empty:
-        it = (flatten((text,) + args, is_not_empty))
-    else:
-        it = (replace_empty(v, '') for v in flatten((text,) + args, None))
-    return _str(next(flatten(delimiter, None))).join(map(_str, it))
+        it = (v for v in it if not (isinstance(v, str) and v == ''))
+    delimiter = replace_empty(next(flatten(delimiter, None)), '')
+    return _str(delimiter).join(map(_str, it))
 
 
 FUNCTIONS['_XLFN.TEXTJOIN'] = FUNCTIONS['TEXTJOIN'] = wrap_func(xtextjoin)
